@@ -6,6 +6,7 @@
 package srvlife
 
 import (
+	"sort"
 	"bytes"
 	"context"
 	"encoding/json"
@@ -68,6 +69,8 @@ type run struct {
 	arrivals chan arrival
 	lisName  map[lime.TransportListener]string
 	pendingL map[string][]string // listener -> connections dialled, not yet accepted
+	dialled  map[string]lime.Transport
+	served   map[string]bool // connections a session goroutine was started for
 	connOf   map[lime.Transport]string
 	chanOf   map[string]*lime.ServerChannel
 	sidConn  map[string]string
@@ -151,6 +154,9 @@ func (r *run) hook(point string, args ...interface{}) {
 					res = "est"
 				}
 			}
+			r.mu.Lock()
+			r.served[c] = true
+			r.mu.Unlock()
 			r.log(Event{K: "hs", S: c, Res: res})
 			if res != "est" {
 				return // nothing of the model happens between here and the end of the goroutine
@@ -203,7 +209,7 @@ func connOfName(name string) string {
 // Run executes one case and streams its events to stdout.
 func Run(c Case) int {
 	r := &run{out: json.NewEncoder(os.Stdout), release: map[string]chan struct{}{}, parked: map[string]string{},
-		arrivals: make(chan arrival, 32), lisName: map[lime.TransportListener]string{}, pendingL: map[string][]string{},
+		arrivals: make(chan arrival, 32), lisName: map[lime.TransportListener]string{}, pendingL: map[string][]string{}, dialled: map[string]lime.Transport{}, served: map[string]bool{},
 		connOf: map[lime.Transport]string{}, chanOf: map[string]*lime.ServerChannel{}, sidConn: map[string]string{},
 		exited: map[string]bool{}}
 	cur = r
@@ -333,6 +339,9 @@ func Run(c Case) int {
 		r.pendingL[ln] = append(r.pendingL[ln], cn)
 		r.mu.Unlock()
 		r.log(Event{K: "arrive", S: cn, L: ln})
+		r.mu.Lock()
+		r.dialled[cn] = t
+		r.mu.Unlock()
 		fr := make(chan struct{}, 1)
 		finishReq[cn] = fr
 		outcome := c.Cfg.Outcome[cn]
@@ -545,6 +554,20 @@ func Run(c Case) int {
 					break
 				}
 				time.Sleep(5 * time.Millisecond)
+			}
+			// connections that were made but never served (still in a listener's or the server's queue
+			// when Close came): is anybody going to close them, or is the client left waiting?
+			r.mu.Lock()
+			var waiting []string
+			for cn, t := range r.dialled {
+				if !r.served[cn] && t.Connected() {
+					waiting = append(waiting, cn)
+				}
+			}
+			r.mu.Unlock()
+			sort.Strings(waiting)
+			for _, cn := range waiting {
+				r.log(Event{K: "stranded", S: cn})
 			}
 			r.log(Event{K: "end", Res: "quiet", N: left})
 			close(stop)
